@@ -250,6 +250,15 @@ fn run_one(out: &mut Out, lines: &[String], fam: &mut BTreeMap<u64, Vec<(usize, 
 				let text = String::from_utf8(unhex(w[2])).unwrap_or_default();
 				// acceptance of a subscribe in this very line: routing starts after it
 				orc.deliver(&text);
+				// the responses of an array are handed to the batch code together with the pushes around them being
+				// delivered: a batch completes or the whole array is refused, they never just vanish
+				if array_has_response(&text) {
+					nontrivial = true;
+					out.count("mixed.array-with-responses");
+					if obs.fatal.is_none() && !obs.comps.iter().any(|(_, c)| matches!(c, Comp::Batch { .. } | Comp::E(_))) {
+						verdict = Err(format!("the responses inside the array {text} took no effect: no batch completed and the connection was not given up"));
+					}
+				}
 			}
 			// what the client wrote as a consequence comes after what it received
 			for wt in &obs.wires {
@@ -611,8 +620,17 @@ fn gen_random_case(rng: &mut Rng, out: &mut Out, caseno: u64) -> Vec<String> {
 				out.count("api.batch");
 				let n = rng.range(1, 3);
 				if rng.chance(1, 2) { lines.push(format!("cl batch {n}")) } else { lines.push(format!("cl tbatch {} {n}", rng.pick(&TYPED_KINDS))) }
-				if gate_open && rng.chance(1, 2) {
-					let es: Vec<String> = (0..n).map(|i| format!("{{\"jsonrpc\":\"2.0\",\"id\":{},\"result\":{i}}}", idj(g.next_id + i, str_ids))).collect();
+				if gate_open && rng.chance(2, 3) {
+					let mut es: Vec<String> = (0..n).map(|i| format!("{{\"jsonrpc\":\"2.0\",\"id\":{},\"result\":{i}}}", idj(g.next_id + i, str_ids))).collect();
+					if rng.chance(1, 2) {
+						// the batch reply shares its array with notifications for the live streams
+						out.count("mixed.batch-reply-with-pushes");
+						for _ in 0..rng.range(1, 3) {
+							let pos = rng.below(es.len() as u64 + 1) as usize;
+							let m = g.message(rng);
+							es.insert(pos, m);
+						}
+					}
 					lines.push(format!("cl deliver {}", hexs(&format!("[{}]", es.join(",")))));
 				}
 				g.next_id += n;
